@@ -255,6 +255,9 @@ class ExecutionState:
         # Operations whose parent has completed
         self._parent_done: set[str] = set()
 
+        # Contexts that have handed over their own completion record (children first started afterwards are rejected)
+        self._completed_contexts: set[str] = set()
+
         # Protects parent_to_children and parent_done
         self._parent_done_lock: Lock = Lock()
         self._replay_status: ReplayStatus = replay_status
@@ -444,12 +447,15 @@ class ExecutionState:
                     in {OperationAction.SUCCEED, OperationAction.FAIL}
                 ):
                     self._mark_orphans(operation_update.operation_id)
+                    self._completed_contexts.add(operation_update.operation_id)
 
                 # Check if this operation's parent is done. An operation that is first started after the
-                # parent completed is not in _parent_done itself, but its enclosing (orphaned) context is.
+                # parent completed is not in _parent_done itself, but its enclosing context is either marked
+                # as orphaned or is the completed context itself.
                 if (
                     operation_update.operation_id in self._parent_done
                     or operation_update.parent_id in self._parent_done
+                    or operation_update.parent_id in self._completed_contexts
                 ):
                     logger.debug(
                         "Rejecting checkpoint for operation %s - parent is done",
